@@ -41,7 +41,7 @@ class Stop(Exception):
 class Skel:
     MAX_ITER = 64
 
-    def __init__(self, fn, env=None, unknown=None, event=None, stop=None, mem_default=None, max_iter=None):
+    def __init__(self, fn, env=None, unknown=None, event=None, stop=None, mem_default=None, max_iter=None, tu=None):
         self.fn = fn
         self.env = dict(env or {})
         self.unknown = unknown
@@ -49,6 +49,9 @@ class Skel:
         self.stop = stop
         self.mem_default = mem_default
         self.alg = None
+        self.tu = tu if tu is not None else getattr(fn, "tu", None)
+        self.alias = {}          # declaration id of a reference parameter / local -> key of the object it names
+        self.depth = 0
         if max_iter:
             self.MAX_ITER = max_iter
 
@@ -72,6 +75,8 @@ class Skel:
                 return r
         if k == "DeclRefExpr":
             d = e["ref"]["id"]
+            if d in self.alias:
+                return self.load(self.alias[d])
             if d in self.env:
                 return self.env[d]
             return self.unknown(e, self) if self.unknown else None
@@ -93,6 +98,11 @@ class Skel:
                 new = None if old is None else old + (1 if op == "++" else -1)
                 self.store(key, new)
                 return old if e.get("postfix") else new
+            if op == "&":
+                key = self.lvalue(kids(e)[0])
+                if key is not None:
+                    return ("ptr", key)
+                return self.unknown(e, self) if self.unknown else None
             a = self.ev(kids(e)[0])
             if op == "!":
                 return None if not isinstance(a, (int, bool)) else not a
@@ -142,6 +152,24 @@ class Skel:
                 if a is None or b is None:
                     return None
                 return min(a, b) if name == "min" else max(a, b)
+            if e["k"] == "CXXOperatorCallExpr" and e.get("op") in ("++", "--") and args:
+                key = self.lvalue(args[0])
+                old = self.load(key)
+                if isinstance(old, int) and not isinstance(old, bool):
+                    new_ = old + (1 if e["op"] == "++" else -1)
+                    self.store(key, new_)
+                    return old if len(args) == 2 else new_
+            if e["k"] == "CXXOperatorCallExpr" and e.get("op") in ("+=", "-=") and len(args) == 2:
+                key = self.lvalue(args[0])
+                old, d_ = self.load(key), self.ev(args[1])
+                if isinstance(old, int) and isinstance(d_, int):
+                    new_ = old + (d_ if e["op"] == "+=" else -d_)
+                    self.store(key, new_)
+                    return new_
+            if e["k"] == "CXXOperatorCallExpr" and e.get("op") == "*" and len(args) == 1:
+                a_ = self.ev(args[0])
+                if isinstance(a_, int) and not isinstance(a_, bool):
+                    return self.load(("mem", a_))
             b = match.binop(e)
             if b and b[0] == "=" and e["k"] == "CXXOperatorCallExpr":
                 v = self.ev(b[2])
@@ -155,6 +183,9 @@ class Skel:
                 key = self.lvalue(e)
                 if key is not None and (key in self.env or key[0] == "mem"):
                     return self.load(key)
+            r = self.inline(e, args)
+            if r is not NotImplemented:
+                return r
             for a in args:
                 self.ev(a)
             return self.unknown(e, self) if self.unknown else None
@@ -164,6 +195,46 @@ class Skel:
             if key is not None and (key in self.env or key[0] == "mem"):
                 return self.load(key)
         return self.unknown(e, self) if self.unknown else None
+
+    def inline(self, e, args):
+        """executes the body of a project function called here: free functions and members called on *this; reference
+        parameters name the caller's objects, pointers to objects are followed"""
+        if self.tu is None or self.depth >= 5:
+            return NotImplemented
+        callee = self.tu.by_did.get(e["callee"].get("did"))
+        if callee is None or callee.body is None or callee.did == self.fn.did or callee.kind in ("ctor", "dtor", "lambda"):
+            return NotImplemented
+        actual = args
+        if e.get("member_call"):
+            if not args or strip_casts(args[0])["k"] != "This":
+                return NotImplemented
+            actual = args[1:]
+        if e["k"] == "CXXOperatorCallExpr" or len(actual) != len(callee.params):
+            return NotImplemented
+        saved_alias = dict(self.alias)
+        for p, a in zip(callee.params, actual):
+            ty = (p.get("ty") or "").rstrip()
+            if ty.endswith("&") and not ty.endswith("&&") and "const" not in ty.split("<")[0]:
+                key = self.lvalue(a)
+                if key is None:
+                    self.alias = saved_alias
+                    return NotImplemented
+                self.alias[p["did"]] = key
+            else:
+                self.env[p["did"]] = self.ev(a)
+        self.depth += 1
+        saved_fn = self.fn
+        self.fn = callee
+        try:
+            self.run(kids(callee.body))
+            ret = None
+        except Return as r_:
+            ret = r_.v
+        finally:
+            self.fn = saved_fn
+            self.depth -= 1
+            self.alias = saved_alias
+        return ret
 
     def arith(self, op, a, b, e):
         if a is None or b is None:
@@ -217,12 +288,19 @@ class Skel:
             e = strip_casts(kids(e)[0])
         d = ref_of(e)
         if d is not None:
-            return d
+            return self.alias.get(d, d)
         if e is not None and e["k"] == "MemberExpr" and match.this_field(e):
             return ("field", match.this_field(e))
         if e is not None and e["k"] == "UnaryOperator" and e.get("op") == "*":
             a = self.ev(kids(e)[0])
+            if isinstance(a, tuple) and len(a) == 2 and a[0] == "ptr":
+                return a[1]
             return ("mem", a) if isinstance(a, int) else None
+        if e is not None and e["k"] == "CXXOperatorCallExpr" and e.get("op") == "*" and len(kids(e)) == 1:
+            a = self.ev(kids(e)[0])
+            if isinstance(a, tuple) and len(a) == 2 and a[0] == "ptr":
+                return a[1]
+            return ("mem", a) if isinstance(a, int) and not isinstance(a, bool) else None
         ip = match.index_parts(e)
         if ip:
             bty = (strip_casts(ip[0]).get("ty") or "").rstrip()
